@@ -330,12 +330,17 @@ def r_case(case):
             actor = 'source ' + r_interpreter(act)
         elif k == 'null' and act.get('explicit_actor', True):
             actor = 'null'
+    conf = []
+    if case.get('act_home'):
+        conf.append('act-home = ' + case['act_home'])
     if actor and act.get('via') == 'suite':
         files['exactly.suite'] = '[conf]\nactor = %s\n' % actor
     elif actor and act.get('via') == 'cli':
         pass  # r_cli_args
     elif actor:
-        lines += ['[conf]', 'actor = ' + actor, '']
+        conf.append('actor = ' + actor)
+    if conf:
+        lines += ['[conf]'] + conf + ['']
     local = set()
     for ph in PHASES:
         for ins in case.get('phases', {}).get(ph, []):
